@@ -31,6 +31,7 @@ type c08Case struct {
 	Outcome  []byte `json:"outcomes"` // per target: 'p' positive, 'n' negative, 'e' probe error, 'I' bad ip line, 'P' bad port line
 	Latency  []byte `json:"latency"`  // per target: 0 none, 1 Gosched, 2 100us, 3 2ms, 4 TailMs (slow positive probes at the end of the list: the scan outlasts the exit delay)
 	TailMs   int    `json:"slow_tail_ms"`
+	ErrUs    int    `json:"error_sink_delay_us"` // a slow error sink (terminal, pipe): the backlog outlasts the exit delay
 	Workers  int    `json:"workers"`
 	Rate     bool   `json:"rate_limiter"`
 	Direct   bool   `json:"direct_engine"` // observe the engine's done channel instead of going through startScanEngine
@@ -99,12 +100,16 @@ func (s *c08Scanner) Scan(ctx context.Context, r *scan.Request) (scan.Result, er
 }
 
 type c08Logger struct {
-	real log.Logger
+	delay time.Duration
+	real  log.Logger
 	mu   sync.Mutex
 	errs map[string]int
 }
 
 func (l *c08Logger) Error(err error) {
+	if l.delay > 0 {
+		time.Sleep(l.delay)
+	}
 	l.mu.Lock()
 	l.errs[err.Error()]++
 	l.mu.Unlock()
@@ -192,7 +197,10 @@ func c08Check(c c08Case) *kit.Verdict {
 	if err != nil {
 		return v.Failf("logger: %v", err)
 	}
-	lg := &c08Logger{real: real, errs: map[string]int{}}
+	lg := &c08Logger{real: real, errs: map[string]int{}, delay: time.Duration(c.ErrUs) * time.Microsecond}
+	if c.ErrUs > 0 {
+		v.Label("slow-error-sink")
+	}
 
 	if c.Direct {
 		var lwg sync.WaitGroup
@@ -283,7 +291,7 @@ func TestC08Engine(t *testing.T) {
 	maxN := kit.EnvInt("C08_MAXN", 3000)
 	kit.Run(t, kit.Spec[c08Case]{
 		Prop: "C08",
-		Rule: "target file of 0..5000 ip/port lines (more positives than the 2x1000-slot result buffers, more errors than the 100-slot error buffer) with a drawn outcome per target (positive / negative / probe error / bad-address line / bad-port line) and latency class (optionally a tail of slow positive probes so that the scan outlasts the exit delay), workers 1..1000, rate limiter on/off, through genericScanCmdOpts.newScanEngine (real file generator, real engine, real ResultChan) and either engine.Start directly (done observed: nothing in flight, all finished) or startScanEngine with the real JSON logger and exit delay >= default. Oracle: each probe-able target scanned exactly once, output records = positives, error records = failures (multisets). non-trivial: >100 targets, >=2 workers, all three probe outcomes present; distinct by case",
+		Rule: "target file of 0..5000 ip/port lines (more positives than the 2x1000-slot result buffers, more errors than the 100-slot error buffer) with a drawn outcome per target (positive / negative / probe error / bad-address line / bad-port line) and latency class (optionally a tail of slow positive probes so that the scan outlasts the exit delay), workers 1..1000, rate limiter on/off, optionally an error sink that takes 4 ms per record (the backlog of errors outlasts the exit delay), through genericScanCmdOpts.newScanEngine (real file generator, real engine, real ResultChan) and either engine.Start directly (done observed: nothing in flight, all finished) or startScanEngine with the real JSON logger and exit delay >= default. Oracle: each probe-able target scanned exactly once, output records = positives, error records = failures (multisets). non-trivial: >100 targets, >=2 workers, all three probe outcomes present; distinct by case",
 		Gen: func(t *rapid.T) c08Case {
 			c := c08Case{}
 			c.N = rapid.SampledFrom([]int{0, 1, 2, 50, 101, 150, 400, 1200, maxN}).Draw(t, "n")
@@ -322,6 +330,13 @@ func TestC08Engine(t *testing.T) {
 			c.Rate = rapid.Bool().Draw(t, "rate")
 			c.Direct = rapid.IntRange(0, 2).Draw(t, "direct") > 0
 			c.ExitMs = rapid.SampledFrom([]int{300, 300, 500}).Draw(t, "exit")
+			if strings.Contains(mix, "eeee") && c.N >= 400 && rapid.Bool().Draw(t, "slow-errors") {
+				c.ErrUs = 4000 // some hundred queued errors x 4 ms: draining them takes longer than the exit delay
+				if c.N > 1200 {
+					c.N = 1200
+					c.Outcome, c.Latency = c.Outcome[:c.N], c.Latency[:c.N]
+				}
+			}
 			if c.TailMs > 0 {
 				c.TailMs = c.ExitMs + 120
 			}
